@@ -449,7 +449,12 @@ func (u *Unit) check(st *State, name, kind string, goal *Term, text string) bool
 	if u.Cfg.Verbose {
 		fmt.Printf("  [%s] %s: %s\n", r, name, goal.S)
 	}
-	u.assume(goal)
+	if kind != "frame" {
+		// one defect is reported once: continue as if the obligation held.
+		// (Not for frame obligations: the write did happen, and what it
+		// aliases matters to the obligations that follow.)
+		u.assume(goal)
+	}
 	return false
 }
 
